@@ -24,6 +24,7 @@ harnesses! {
     h_c12_loop_survives => loop_survives(),
     h_c16_sched => delayed_schedule(),
     h_c16_fire => delayed_fire(),
+    h_c16_two => delayed_two(),
 }
 
 pub struct Topo { pub ex: FsmExecutor, pub g: Vec<GlobalDataArc> }
@@ -81,7 +82,7 @@ pub fn internal_names(g: &GlobalDataArc) -> Vec<String> {
 
 fn src(t: &str, id: usize) -> Data { Data::Source(SourceCode::new(t, id)) }
 
-const TARGETS: [&str; 9] = ["", "#_internal", "#_scxml_2", "#_scxml_3", "#_parent", "#_child", "#_scxml_9", "#_scxml_x", "http://example.org/x"];
+const TARGETS: [&str; 12] = ["", "#_internal", "#_scxml_2", "#_scxml_3", "#_parent", "#_child", "#_scxml_9", "#_scxml_x", "http://example.org/x", "#_scxml_1", "#_scxml_", "#_scxml_-1"];
 
 fn mk_send(target_ix: usize, via_expr: bool, type_ix: u32, payload: u32) -> SendParameters {
     let mut sp = SendParameters::new();
@@ -106,7 +107,9 @@ fn int_param(e: &Event, name: &str) -> Option<i64> {
 fn route() {
     let with_parent = vnd_bool(1);
     let with_child = vnd_bool(2);
-    let tix = vnd_conc(vnd_range(0, 5, 3), 5) as usize;
+    let tix0 = vnd_conc(vnd_range(0, 6, 3), 6) as usize;
+    // index 6 stands for the sender's own session id ("#_scxml_1"): its external queue
+    let tix = if tix0 == 6 { 9 } else { tix0 };
     let via_expr = vnd_bool(4);
     let type_ix = vnd_range(0, 2, 5);
     let payload = vnd_conc(vnd_range(0, 3, 6), 3);
@@ -122,7 +125,7 @@ fn route() {
     let ok = sp.execute(&mut dm, &fsm);
     let (e1, e2, e3) = (drain_ext(&t.g[0]), drain_ext(&t.g[1]), drain_ext(&t.g[2]));
     let i1 = t.g[0].lock().unwrap().vh_internal_queue_len();
-    let want = match tix { 0 => 1, 1 => 0, 2 | 4 => 2, _ => 3 };
+    let want = match tix { 0 | 9 => 1, 1 => 0, 2 | 4 => 2, _ => 3 };
     vnd_cover(1501);
     vnd_check(1501, ok && e1.len() == if want == 1 { 1 } else { 0 } && e2.len() == if want == 2 { 1 } else { 0 } && e3.len() == if want == 3 { 1 } else { 0 } && i1 == if want == 0 { 1 } else { 0 });
     vnd_check(1502, t.g[1].lock().unwrap().vh_internal_queue_len() == 0 && t.g[2].lock().unwrap().vh_internal_queue_len() == 0);
@@ -157,7 +160,8 @@ fn route() {
 fn send_errors() {
     let with_parent = vnd_bool(1);
     let with_child = vnd_bool(2);
-    let tix = vnd_conc(vnd_range(0, 8, 3), 8) as usize;
+    let traw = vnd_conc(vnd_range(0, 10, 3), 10) as usize;
+    let tix = if traw >= 9 { traw + 1 } else { traw };
     let type_ix = vnd_range(0, 3, 5);
     // which argument expression fails to evaluate: 0 none, 1 targetexpr, 2 eventexpr, 3 param expr, 4 namelist location, 5 delayexpr, 6 typeexpr
     let bad = vnd_conc(vnd_range(0, 6, 6), 6);
@@ -181,7 +185,7 @@ fn send_errors() {
     let delivered = e1.len() + e2.len() + e3.len() + names.iter().filter(|n| n.as_str() == "ev").count();
     let nexec = names.iter().filter(|n| n.as_str() == "error.execution").count();
     let ncomm = names.iter().filter(|n| n.as_str() == "error.communication").count();
-    let target_exists = match tix { 4 => with_parent, 5 => with_child, 6 | 7 | 8 => false, _ => true };
+    let target_exists = match tix { 4 => with_parent, 5 => with_child, 6 | 7 | 8 | 10 | 11 => false, _ => true };
     let bad_type = type_ix == 3;
     vnd_cover(1201);
     if bad == 3 {
@@ -197,7 +201,7 @@ fn send_errors() {
     } else if tix == 8 {
         // malformed / unsupported target: error.execution
         vnd_check(1206, !ok && delivered == 0 && nexec >= 1 && ncomm == 0);
-    } else if tix == 7 {
+    } else if tix == 7 || tix == 10 || tix == 11 {
         vnd_check(1207, !ok && delivered == 0 && nexec + ncomm >= 1);
     } else if tix == 4 {
         // a missing parent is at most reported as an error event or logged
@@ -248,7 +252,9 @@ fn delayed_schedule() {
     t.g[0].lock().unwrap().data.set_undefined("a".to_string(), Data::Integer(5));
     let fsm = Fsm::new();
     let mut dm = RFsmExpressionDatamodel::new(t.g[0].clone());
-    let mut sp = mk_send(tix, false, 1, 1);
+    // the target is given literally or through targetexpr
+    let via_expr = vnd_bool(4);
+    let mut sp = mk_send(tix, via_expr, 1, 1);
     sp.delay_ms = delay;
     let ok = sp.execute(&mut dm, &fsm);
     let negative = delay >= (1u64 << 63);
@@ -280,6 +286,31 @@ fn delayed_schedule() {
     vnd_obs(1, if pending { 1 } else { 0 });
 }
 
+/// C16: several pending delayed sends (with and without ids) are all delivered, each exactly once; cancelling one leaves the others
+fn delayed_two() {
+    let ids = vnd_conc(vnd_range(0, 2, 1), 2);          // 0: both without id, 1: first with id, 2: both with ids
+    let cancel_first = ids >= 1 && vnd_bool(2);
+    let t = topo(false, false);
+    let fsm = Fsm::new();
+    let mut dm = RFsmExpressionDatamodel::new(t.g[0].clone());
+    let mut s1 = mk_send(0, false, 1, 0); s1.event = Data::String("first".to_string()); s1.delay_ms = 40;
+    s1.name = if ids >= 1 { "id1".to_string() } else { String::new() };
+    let mut s2 = mk_send(0, false, 1, 0); s2.event = Data::String("second".to_string()); s2.delay_ms = 90;
+    s2.name = if ids >= 2 { "id2".to_string() } else { String::new() };
+    let ok1 = s1.execute(&mut dm, &fsm);
+    let ok2 = s2.execute(&mut dm, &fsm);
+    if cancel_first { let mut c = Cancel::new(); c.send_id = "id1".to_string(); c.execute(&mut dm, &fsm); }
+    let _ = vnd_timer_fire(0);
+    let _ = vnd_timer_fire(1);
+    let got = drain_ext(&t.g[0]);
+    let n1 = got.iter().filter(|e| e.name == "first").count();
+    let n2 = got.iter().filter(|e| e.name == "second").count();
+    vnd_cover(1620);
+    vnd_check(1620, ok1 && ok2 && n1 == if cancel_first { 0 } else { 1 } && n2 == 1 && got.len() == n1 + n2);
+    vnd_obs(1, got.len() as u64);
+    drop(fsm);
+}
+
 /// C16: the arguments are evaluated when the send executes; delivery happens once; a terminated session discards its pending sends
 fn delayed_fire() {
     let a = vnd_i64(1);
@@ -288,11 +319,15 @@ fn delayed_fire() {
     t.g[0].lock().unwrap().data.set_undefined("a".to_string(), Data::Integer(a));
     let fsm = Fsm::new();
     let mut dm = RFsmExpressionDatamodel::new(t.g[0].clone());
+    t.g[0].lock().unwrap().data.set_undefined("evn".to_string(), Data::String("ev".to_string()));
     let mut sp = mk_send(0, false, 1, 1);
     sp.delay_ms = 60;
+    // the event name comes from an eventexpr that is a bare variable
+    sp.event = Data::None();
+    sp.event_expr = Data::Source(SourceCode::new("evn", 31));
     let ok = sp.execute(&mut dm, &fsm);
-    // the data changes after the send executed
-    t.g[0].lock().unwrap().data.set_undefined("a".to_string(), Data::Integer(0));
+    // the data changes after the send executed (in place, through the language)
+    let _ = dm.execute(&Data::Source(SourceCode::new("a = 0; evn = 'changed'", 32)));
     let before = drain_ext(&t.g[0]);
     if drop_first {
         // the session terminates: its Fsm (and timer) is dropped before the due time
